@@ -26,6 +26,7 @@ Oracle (from the property statement and the docstrings of
                                    "scoped overrides take precedence").
 """
 import threading
+import traceback
 
 import pyglove as pg
 from pyglove.core.symbolic import flags as pg_flags
@@ -406,6 +407,14 @@ def witness(tree, setup_lines, sealed_stack, acc_stack, addr, src, expect):
           "assert pg.to_json(root) == before, 'tree changed'"]
   elif expect == 'unchanged':
     w += ["assert pg.to_json(root) == before, 'tree changed'"]
+  elif expect[0] == 'either':
+    kind, val = expect[1]
+    like_ref = (f'(err is None and pg.to_json(root) == {val!r})'
+                if kind == 'ok' else
+                f'type(err).__name__ == {val.__name__!r}')
+    w += ['refused = isinstance(err, pg.WritePermissionError) and '
+          'pg.to_json(root) == before',
+          f'assert refused or {like_ref}, (repr(err), pg.to_json(root))']
   else:
     kind, val = expect
     if kind == 'ok':
@@ -417,8 +426,25 @@ def witness(tree, setup_lines, sealed_stack, acc_stack, addr, src, expect):
 
 
 def attempt(rec, tree, root, setup_lines, sealed_stack, acc_stack, addr, kind,
-            name, src, sealed_eff, writable_eff, cfg, ref_addr=None,
-            start_sealed=None):
+            name, src, *args, **kwargs):
+  """Runs one op under the config and judges it (see _attempt)."""
+  try:
+    return _attempt(rec, tree, root, setup_lines, sealed_stack, acc_stack,
+                    addr, kind, name, src, *args, **kwargs)
+  except Exception as e:  # pylint: disable=broad-except
+    # The harness itself tripped (e.g. the tree can no longer be walked or
+    # serialized after the operation): report, never crash the driver.
+    rec.case(f'{name}|harness-exception', (tree, addr, src), False,
+             f'{type(e).__name__}: {e} while judging {src!r} at {addr}: '
+             + traceback.format_exc()[-300:],
+             witness(tree, setup_lines, sealed_stack, acc_stack, addr, src,
+                     'unchanged'))
+    return False
+
+
+def _attempt(rec, tree, root, setup_lines, sealed_stack, acc_stack, addr, kind,
+             name, src, sealed_eff, writable_eff, cfg, ref_addr=None,
+             start_sealed=None):
   """Runs one op under the config and judges it."""
   ref = reference(tree, ref_addr or addr, src)
   would_change = ref[0] == 'ok' and ref[2]
@@ -454,7 +480,7 @@ def attempt(rec, tree, root, setup_lines, sealed_stack, acc_stack, addr, kind,
   elif not writable_eff and kind in ('meth', 'inpl'):
     mode = 'accessor-off-method'
     ok = refused or same_as_ref
-    expect = (ref[0], ref[1])
+    expect = ('either', (ref[0], ref[1]))
   else:
     mode = 'writable'
     ok = same_as_ref
@@ -679,7 +705,8 @@ def drv_sealed_scopes(tier, seed):
     ops = [o for o in all_ops_at(proto) if o[0] in reduced]
     for a in (True, False, None):
       for b in (True, False, None):
-        for stack in ((a, ('x', b)), (('x', b),), (a, ('x', b), None)):
+        for stack in ((a, ('x', b)), (('x', b),), (a, ('x', b), None))[
+            :1 if tier == 'quick' else 3]:
           for seal_root in (False, True):
             setup = ['root.seal(True)'] if seal_root else []
             pool = Pool(tree, (lambda t: t.seal(True)) if seal_root else None)
@@ -951,7 +978,7 @@ def _check_history(rec, tree, hist, tag):
       ok = isinstance(err, WPE) and pg.to_json(root2) == before
     else:
       ok = err is None and pg.to_json(root2) != before
-    rec.case(f'seal({want})/{cls}', (tree, tag, shape, q), ok,
+    rec.case(f'seal({want})/{cls}', (tree, tag, shape, q, 'probe'), ok,
              f'after {lines}: {probe} at {q!r}: err={err!r}',
              '\n'.join(head + [
                  f"n = {node_expr((q, ''))}", 'err = None', 'try:',
